@@ -28,7 +28,7 @@ Record Inv (w : world) (V : N) : Prop := {
 Lemma KInv_empty sch : schema_wf sch -> KInv (mkSt [] (0, 0) sch) sch.
 Proof. intros H. split; cbn; auto; try lia. constructor. Qed.
 
-Lemma Inv_winit gs ls : schema_wf gs -> schema_wf ls -> Inv (winit gs ls) 0.
+Lemma Inv_winit c gs ls : schema_wf gs -> schema_wf ls -> Inv (winit c gs ls) 0.
 Proof.
   intros Hg Hl. split; cbn; auto.
   - split; cbn; try reflexivity; try lia. constructor.
@@ -39,6 +39,12 @@ Qed.
 
 Lemma Inv_mono w V V' : Inv w V -> V <= V' -> Inv w V'.
 Proof. intros [A B C D E] H. split; auto. eapply BInv_mono; eauto. Qed.
+
+Lemma Inv_set_cow w V c : Inv w V -> Inv (set_cow w c) V.
+Proof.
+  intros [A B C D E]. split; cbn [set_cow w_global w_gschema w_lschema w_local]; auto.
+  eapply BInv_same_boxes; eauto.
+Qed.
 
 (* a step that only touches boxes *)
 Lemma Inv_boxes w w' V V' : Inv w V -> BInv w' V' -> same_kv w w' -> Inv w' V'.
@@ -217,19 +223,25 @@ Lemma optIn_ok sender w w' u V :
   Inv w V -> optIn sender w = (w', Ok u) -> Inv w' V /\ keeps w w'.
 Proof.
   intros I H. unfold optIn in H. destruct (ahas N.eqb sender (w_local w)); [discriminate|].
-  inversion H; subst; clear H. split; [|split; auto].
-  apply Inv_set_local; auto. apply KInv_empty. apply I.
+  assert (Inv (set_local w (lset sender (mkSt [] (0, 0) (w_lschema w), w_lschema w) (w_local w))) V) as I1.
+  { apply Inv_set_local; auto. apply KInv_empty. apply I. }
+  inversion H; subst; clear H. destruct (sender =? ci_creator (w_cow w)).
+  - split; [apply Inv_set_cow; exact I1|split; auto].
+  - split; [exact I1|split; auto].
 Qed.
 
 Lemma closeOut_ok sender w w' u V :
   Inv w V -> closeOut sender w = (w', Ok u) -> Inv w' V /\ keeps w w'.
 Proof.
   intros I H. unfold closeOut in H. destruct (negb (ahas N.eqb sender (w_local w))); [discriminate|].
-  inversion H; subst; clear H. split; [|split; auto].
-  destruct I as [A B C D E]. split; cbn [set_local w_global w_gschema w_lschema w_local]; auto.
-  - eapply BInv_same_boxes; eauto.
-  - apply NoDup_adel; try exact Neqb_eq; exact C.
-  - intros a s sch. rewrite lget_ldel by exact C. destruct (a =? sender); [discriminate|apply D].
+  assert (Inv (set_local w (ldel sender (w_local w))) V) as I1.
+  { destruct I as [A B C D E]. split; cbn [set_local w_global w_gschema w_lschema w_local]; auto.
+    - eapply BInv_same_boxes; eauto.
+    - apply NoDup_adel; try exact Neqb_eq; exact C.
+    - intros a s sch. rewrite lget_ldel by exact C. destruct (a =? sender); [discriminate|apply D]. }
+  inversion H; subst; clear H. destruct (sender =? ci_creator (w_cow w)).
+  - split; [apply Inv_set_cow; exact I1|split; auto].
+  - split; [exact I1|split; auto].
 Qed.
 
 Lemma deleteApp_ok w w' u V :
@@ -243,14 +255,16 @@ Proof.
     split; [exact X|split; [exact Y|]]. intros Ex. exfalso. apply Ex. reflexivity.
 Qed.
 
-Lemma updateApp_ok gs w w' u V :
-  Inv w V -> schema_wf gs -> updateApp gs w = (w', Ok u) -> Inv w' V /\ (app_exists w -> app_exists w') /\
+Lemma updateApp_ok sender gs w w' u V :
+  Inv w V -> schema_wf gs -> updateApp sender gs w = (w', Ok u) -> Inv w' V /\ (app_exists w -> app_exists w') /\
   w_lschema w' = w_lschema w.
 Proof.
-  intros I Hwf H. unfold updateApp in H. destruct (schema_empty gs).
-  - inversion H; subst. auto.
+  intros I Hwf H. unfold updateApp in H. cbv zeta in H.
+  destruct (negb (negb (schema_empty gs))).
+  - destruct (ci_cclosed (w_cow w) && _); inversion H; subst. auto.
   - destruct (w_global w) as [s|] eqn:Eg; [|discriminate].
-    destruct (negb (checkCounts _)) eqn:Ec; [discriminate|]. inversion H; subst; clear H.
+    destruct (negb (checkCounts _)) eqn:Ec; [discriminate|].
+    destruct (ci_cclosed (w_cow w) && _); [discriminate|]. inversion H; subst; clear H.
     apply negb_false_iff in Ec. unfold checkCounts in Ec. cbn [st_counts st_max] in Ec.
     apply andb_true_iff in Ec. destruct Ec as [C1 C2]. apply negb_true_iff, N.ltb_ge in C1, C2.
     destruct (i_glob w V I s Eg) as [[Nd Hc Hu Hb W] Km]. rewrite Hc in C1, C2.
@@ -314,10 +328,10 @@ Proof.
   - (* UpdateApp *)
     unfold bind in H. cbn [ret] in H.
     destruct (statefulEval P false sender accts sc w) as [w1 [l1|e]] eqn:E1; [|discriminate].
-    destruct (updateApp gs w1) as [w2 [u2|e]] eqn:E2; [|discriminate].
+    destruct (updateApp sender gs w1) as [w2 [u2|e]] eqn:E2; [|discriminate].
     inversion H; subst; clear H.
     destruct (statefulEval_ok _ _ _ _ _ _ _ _ _ I Ex HV E1) as [I1 K1].
-    destruct (updateApp_ok _ _ _ _ _ I1 Hwf E2) as (I2 & _ & L2). split; [exact I2|].
+    destruct (updateApp_ok _ _ _ _ _ _ I1 Hwf E2) as (I2 & _ & L2). split; [exact I2|].
     rewrite L2. apply K1.
   - (* DeleteApp *)
     unfold bind in H. cbn [ret] in H.
@@ -379,10 +393,10 @@ Proof.
     rewrite N.add_assoc. apply IH; auto. lia.
 Qed.
 
-Lemma reach_inv P gs ls ops :
+Lemma reach_inv P c gs ls ops :
   schema_wf gs -> schema_wf ls -> Forall op_wf ops -> volume ops < 2 ^ 64 ->
-  Inv (run P (winit gs ls) ops) (volume ops).
+  Inv (run P (winit c gs ls) ops) (volume ops).
 Proof.
-  intros Hg Hl F HV. pose proof (run_ok P ops (winit gs ls) 0 (Inv_winit gs ls Hg Hl) F) as H.
+  intros Hg Hl F HV. pose proof (run_ok P ops (winit c gs ls) 0 (Inv_winit c gs ls Hg Hl) F) as H.
   rewrite N.add_0_l in H. apply H. exact HV.
 Qed.
